@@ -179,6 +179,12 @@ def halo_equiv(case):
             im, jm = int(rng.integers(nx)), int(rng.integers(ny))
             if mode == "dispersion_recentred" and im == 0 and jm == 0:
                 im = 1
+            if mode == "footprint" and (px or py) and case["idx"] % 3 == 0:
+                # a tower standing beside the flux map: on its far edge (node nx / ny) or in the halo strip
+                im = int(rng.choice([nx, -1, int(rng.integers(-px, nx + px + 1))])) if px else im
+                jm = int(rng.choice([ny, -1, int(rng.integers(-py, ny + py + 1))])) if py else jm
+                im, jm = max(-px, min(nx + px - 1, im)), max(-py, min(ny + py - 1, jm))
+                counters["tower_outside_flux_map"] = counters.get("tower_outside_flux_map", 0) + int(not (0 <= im < nx and 0 <= jm < ny))
             mp = (im * dx, jm * dy)
             # dispersion: the re-centring shift xm - xmax/2 is invariant under the padding; footprint: the tower moves with the pad
             mp_big = (mp[0] + px * dx, mp[1] + py * dy)
